@@ -27,7 +27,7 @@ from cert import Const, Cx, ZERO, ONE, HALF, PI, lift, sqrt, ln, exp, sin, cos, 
 from specb import *
 
 LEVEL = "exploration"
-PRECS_QUICK = [20, 53, 53, 100]
+PRECS_QUICK = [20, 53, 53, 53]
 PRECS_THOROUGH = [20, 53, 100, 200]
 PRECS_EL = [15, 53, 113, 400]              # elementary references
 PRECS_EL_T = [15, 53, 113, 400, 1000, 3000]
@@ -36,7 +36,7 @@ NOT_DECIDED = [
     "jtheta (and derivatives), ellipfun, kleinj, eta, qfrom/mfrom/kfrom/taufrom/qbarfrom, qp, qgamma, qhyper: no formal reference "
     "(identities among themselves only) -- not covered",
     "complex arguments of every function; lambertw on complex branches / complex z; elliprj, elliprd, elliprg at generic arguments; "
-    "elliptic integrals with m >= 1 or amplitude outside (0, PI/2); integral references above 100 bits (quick) / 200 bits (thorough)",
+    "elliptic integrals with m >= 1 or amplitude outside (0, PI/2); integral references above 53 bits (quick) / 200 bits (thorough)",
 ]
 
 ASSUMPTIONS = [
@@ -223,13 +223,13 @@ def reg(*a, **kw):
 IQ = dict(precs=PRECS_QUICK, params=iparams)
 EL = dict(precs=PRECS_EL)
 
-reg("ellipk", "ellipk", lambda c, m: c.ellipk(M(c, m)), r_ellipk, lambda rng, p: [g_m(rng)], w=2.0, regime="integral", **IQ)
-reg("ellipe", "ellipe", lambda c, m: c.ellipe(M(c, m)), r_ellipe, lambda rng, p: [g_m(rng)], w=2.0, regime="integral", **IQ)
-reg("ellipf", "ellipf", lambda c, phi, m: c.ellipf(M(c, phi), M(c, m)), r_ellipf, lambda rng, p: [g_phi(rng), g_m(rng)], w=1.5, regime="integral", **IQ)
-reg("ellipe_inc", "ellipe", lambda c, phi, m: c.ellipe(M(c, phi), M(c, m)), r_ellipe_inc, lambda rng, p: [g_phi(rng), g_m(rng)], w=1.5, regime="integral", **IQ)
-reg("ellippi", "ellippi", lambda c, n, m: c.ellippi(M(c, n), M(c, m)), r_ellippi, lambda rng, p: [g_n(rng), g_m(rng)], w=1.0, regime="integral", **IQ)
+reg("ellipk", "ellipk", lambda c, m: c.ellipk(M(c, m)), r_ellipk, lambda rng, p: [g_m(rng)], w=0.6, regime="integral", **IQ)
+reg("ellipe", "ellipe", lambda c, m: c.ellipe(M(c, m)), r_ellipe, lambda rng, p: [g_m(rng)], w=0.6, regime="integral", **IQ)
+reg("ellipf", "ellipf", lambda c, phi, m: c.ellipf(M(c, phi), M(c, m)), r_ellipf, lambda rng, p: [g_phi(rng), g_m(rng)], w=0.8, regime="integral", **IQ)
+reg("ellipe_inc", "ellipe", lambda c, phi, m: c.ellipe(M(c, phi), M(c, m)), r_ellipe_inc, lambda rng, p: [g_phi(rng), g_m(rng)], w=0.8, regime="integral", **IQ)
+reg("ellippi", "ellippi", lambda c, n, m: c.ellippi(M(c, n), M(c, m)), r_ellippi, lambda rng, p: [g_n(rng), g_m(rng)], w=0.6, regime="integral", **IQ)
 reg("ellippi_inc", "ellippi", lambda c, n, phi, m: c.ellippi(M(c, n), M(c, phi), M(c, m)), r_ellippi_inc,
-    lambda rng, p: [g_n(rng), g_phi(rng), g_m(rng)], w=1.0, regime="integral", **IQ)
+    lambda rng, p: [g_n(rng), g_phi(rng), g_m(rng)], w=0.6, regime="integral", **IQ)
 reg("elliprc", "elliprc", lambda c, x, y: c.elliprc(M(c, x), M(c, y)), rc, g_rc, w=2.0, regime="elementary", **EL)
 reg("elliprf_xyy", "elliprf", lambda c, x, y: c.elliprf(M(c, x), M(c, y), M(c, y)), rc, lambda rng, p: g_rc(rng, p)[:1] + [g_pos(rng)], w=1.0, regime="elementary", **EL)
 reg("elliprf_xxx", "elliprf", lambda c, x: c.elliprf(M(c, x), M(c, x), M(c, x)), lambda x: 1 / sqrt(C(x)), lambda rng, p: [g_pos(rng)], w=0.4, regime="elementary", **EL)
@@ -245,15 +245,15 @@ reg("elliprg_0yy", "elliprg", lambda c, y: c.elliprg(0, M(c, y), M(c, y)), lambd
 reg("elliprg_xyy", "elliprg", lambda c, x, y: c.elliprg(M(c, x), M(c, y), M(c, y)), lambda x, y: (C(y) * rc(x, y) + sqrt(C(x))) * HALF,
     lambda rng, p: [g_pos(rng), g_pos(rng)], w=0.8, regime="elementary", **EL)
 reg("elliprf_gen", "elliprf", lambda c, x, y, z: c.elliprf(M(c, x), M(c, y), M(c, z)), r_rf_gen,
-    lambda rng, p: [g_pos(rng), g_pos(rng), g_pos(rng)], w=1.2, regime="integral", **IQ)
+    lambda rng, p: [g_pos(rng), g_pos(rng), g_pos(rng)], w=0.8, regime="integral", **IQ)
 reg("agm", "agm", lambda c, a, b: c.agm(M(c, a), M(c, b)), r_agm,
-    lambda rng, p: [g_pos(rng, rng.choice([2, 20, 1000])), g_pos(rng, rng.choice([2, 20]))], w=1.5, regime="integral", **IQ)
+    lambda rng, p: [g_pos(rng, rng.choice([2, 20, 1000])), g_pos(rng, rng.choice([2, 20]))], w=0.8, regime="integral", **IQ)
 reg("lambertw_0", "lambertw", lambda c, z, k: c.lambertw(M(c, z), 0), gen=g_lw0, build=b_lambertw, w=2.5, regime="branch0", **EL)
 reg("lambertw_m1", "lambertw", lambda c, z, k: c.lambertw(M(c, z), -1), gen=g_lwm1, build=b_lambertw, w=1.5, regime="branch-1", **EL)
 
 RULE = ("each evaluation = one call of the current /repo code; call form drawn from the %d-entry registry (every entry once, then by "
         "weight); arguments random short dyadic rationals: m in (-20, 1) incl. 1 - 2^-k, phi in [1/8, 3/2], n < 1, Carlson arguments in "
-        "(0, 41], lambertw z in (-1/e, 10^6] incl. neighbours of the branch point; precisions 20/53/100 for integral references "
+        "(0, 41], lambertw z in (-1/e, 10^6] incl. neighbours of the branch point; precisions 20/53 for integral references "
         "(200 thorough), 15..400 (3000 thorough) for elementary ones; non-trivial = a real Interval/integral proof; distinct = distinct "
         "lemma statements" % len(K))
 
@@ -262,7 +262,7 @@ def run(rep, tier_, rng):
     if tier_ == "thorough":
         for k in K:
             k.precs = PRECS_THOROUGH if k.precs is PRECS_QUICK else PRECS_EL_T
-    run_kinds(rep, K, tier_, rng, n_quick=int(os.environ.get("VERIF_B3_N", 60)), n_thorough=450, precs_quick=PRECS_QUICK,
+    run_kinds(rep, K, tier_, rng, n_quick=int(os.environ.get("VERIF_B3_N", 44)), n_thorough=450, precs_quick=PRECS_QUICK,
               precs_thorough=PRECS_THOROUGH, assumptions=ASSUMPTIONS, rule=RULE, not_decided=NOT_DECIDED,
               params={"sentence_timeout": 100 if tier_ == "quick" else 400, "single_timeout": 100 if tier_ == "quick" else 400,
                       "batch": 5, "ladder": [1]}, budget_quick=120)
